@@ -39,6 +39,19 @@ from .config import CollectionPipelineConfig
 from .detector import PatternMatch, PipelinePatternDetector
 
 
+# Section names in lookup order; "pipeline" is what init-config generates (the CLI command name)
+_SECTION_NAMES = ("collection_pipeline", "collection-pipeline", "pipeline")
+
+
+def _find_pipeline_section(config_dict: dict) -> dict:
+    """Find the linter's section in a config dict (falls back to the dict itself)."""
+    for name in _SECTION_NAMES:
+        if name in config_dict:
+            section: dict = config_dict[name]
+            return section
+    return config_dict
+
+
 class CollectionPipelineRule(BaseLintRule):  # thailint: ignore[srp,dry]
     """Detects for loops with embedded filtering that could use collection pipelines."""
 
@@ -128,9 +141,7 @@ class CollectionPipelineRule(BaseLintRule):  # thailint: ignore[srp,dry]
             return CollectionPipelineConfig()
 
         # Check for collection_pipeline or collection-pipeline specific config
-        linter_config = config_dict.get(
-            "collection_pipeline", config_dict.get("collection-pipeline", config_dict)
-        )
+        linter_config = _find_pipeline_section(config_dict)
         return CollectionPipelineConfig.from_dict(linter_config)
 
     def _is_file_ignored(self, context: BaseLintContext, config: CollectionPipelineConfig) -> bool:
